@@ -53,7 +53,7 @@ func c01Gates(r *R) {
 		bad := pt.Count(r.p.Is("(*channels.Channels).FinishTransfer", "(*channels.Channels).Complete", "(*channels.Channels).BeginFinalizing", "(network.DataTransferNetwork).SendMessage"))
 		r.c.Check(bad == 0, "C01.1", fmt.Sprintf("errpath#%d", n), r.p.Pos(occ.Pos()), "no completion effect on a path with completeErr != nil", "completion effect on a path with a transport completion error: "+pt.Describe())
 	}
-	r.c.Floor("C01.1", n, 2, "error paths in OnChannelCompleted")
+	r.c.Floor("C01.1", n, 1, "error paths in OnChannelCompleted")
 }
 
 func c01Emitters(r *R) {
